@@ -740,6 +740,10 @@ class Engine:
             segs = path.split('::')
             if len(segs) >= 2 and segs[-2] in self.enums and segs[-1] in self.enums[segs[-2]]:
                 return ('enum', segs[-1], segs[-2], args)
+            if len(segs) == 1 and dst_ty:
+                # variant printed without its enum path (`Variable(move _4)`): the destination's type names the enum
+                dt = strip_generics(dst_ty).split('::')[-1].strip()
+                if dt in self.enums and segs[0] in self.enums[dt] and dt not in self.structs: return ('enum', segs[0], dt, args)
             return ('tuple', args)
         m = re.match(r'^([\w:<>\', &\[\];()]+?) \{(.*)\}$', s)
         if m:
@@ -844,8 +848,11 @@ class Engine:
         self.call_cache[callee] = r
         return r
 
+    EXTERNAL_CRATES = ('biodivine_lib_bdd::',)
+
     def _resolve(self, callee):
         if callee in self.fns: return self.fns[callee]
+        if callee.startswith(self.EXTERNAL_CRATES): return None       # inherent functions of a foreign crate: never one of ours with the same name
         c = strip_generics(callee)
         if c in self.fns: return self.fns[c]
         if callee.startswith('<'):
@@ -888,10 +895,17 @@ class Engine:
                     if h and h[0] is None and h[1] == ty: return f
         if len(segs) >= 2:
             ty = segs[-2]
+            cands = []
             for f in self.by_method.get(meth, []):
                 if f.impl_span and '{closure' not in f.name:
                     h = self.impl_header(f.impl_span)
-                    if h and h[0] is None and h[1] == ty: return f
+                    if h and h[0] is None and h[1] == ty: cands.append(f)
+            if len(cands) > 1 and len(segs) >= 3:
+                # two types of the same name in different modules (adf::Adf / adfbiodivine::Adf): the module decides
+                mod = segs[-3]
+                hit = [f for f in cands if f.name.split('::')[0] == mod or re.search(r'(?:^|/)%s\.rs:' % re.escape(mod), f.impl_span)]
+                if hit: return hit[0]
+            if cands: return cands[0]
         for f in self.by_method.get(meth, []):
             if not f.impl_span and (f.name == c or f.name.endswith('::' + c) or c.endswith('::' + f.name)): return f
         return None
@@ -1101,11 +1115,16 @@ class Engine:
                     fn = self.models.get(key)
                     if fn: break
         else:
-            c = strip_generics(callee)
-            segs = c.split('::')
-            for key in (c, '::'.join(segs[-2:]), '*::' + segs[-1]):
-                fn = self.models.get(key)
-                if fn: break
+            mi = re.search(r'<impl (?:[\w:]+::)?(\w+)(?:<[^<>]*>)?>::(\w+)', callee)
+            if mi is not None:
+                # inherent method of an external type, e.g. biodivine_lib_bdd::_impl_bdd::_impl_util::<impl biodivine_lib_bdd::Bdd>::is_true
+                fn = self.models.get('impl %s::%s' % (mi.group(1), mi.group(2)))
+            if fn is None:
+                c = strip_generics(callee)
+                segs = c.split('::')
+                for key in (c, '::'.join(segs[-2:]), '*::' + segs[-1]):
+                    fn = self.models.get(key)
+                    if fn: break
         if fn is None:
             raise Unsupported('no model for call: %s' % (callee,))
         self.call_cache[('model', callee)] = fn
